@@ -58,7 +58,9 @@ pub fn gen_tiles(r: &mut Rng, n: usize, spread: u64) -> BTreeMap<u64, Vec<u8>> {
     let mut m = BTreeMap::new();
     let mut id = r.below(3);
     for _ in 0..n {
-        let c = if r.below(3) == 0 { pool[r.below(pool.len() as u64) as usize].clone() } else { let l = 1 + r.below(30) as usize; (0..l).map(|_| r.below(256) as u8).collect() };
+        let mut c: Vec<u8> = if r.below(3) == 0 { pool[r.below(pool.len() as u64) as usize].clone() } else { let l = 1 + r.below(30) as usize; (0..l).map(|_| r.below(256) as u8).collect() };
+        // near-duplicates: a proper prefix of an earlier content (a foreign writer may store them at the SAME offset with different lengths)
+        if r.below(5) == 0 { if let Some(prev) = m.values().nth(r.below(m.len() as u64 + 1) as usize).cloned() { let prev: Vec<u8> = prev; if prev.len() >= 2 { c = prev[..1 + r.below(prev.len() as u64 - 1) as usize].to_vec(); } } }
         m.insert(id, c);
         id += 1 + if r.below(3) == 0 { r.below(spread) } else { 0 };
     }
@@ -87,7 +89,15 @@ pub fn foreign_archive(r: &mut Rng, tiles: &BTreeMap<u64, Vec<u8>>, ic: u8, leaf
     contents.sort(); contents.dedup();
     for i in (1..contents.len()).rev() { let j = r.below(i as u64 + 1) as usize; contents.swap(i, j); }
     let mut data = Vec::new(); let mut where_: BTreeMap<&Vec<u8>, (u64, u32)> = BTreeMap::new();
-    for c in contents { if r.below(4) == 0 { data.extend([0u8; 3]); } where_.insert(c, (data.len() as u64, c.len() as u32)); data.extend(c.iter()); }
+    // a content that is a proper prefix of another one is (often) not stored at all: it shares the longer content's offset
+    let all_contents: Vec<&Vec<u8>> = contents.clone();
+    let mut shared: Vec<(&Vec<u8>, &Vec<u8>)> = Vec::new();
+    for c in contents {
+        if let Some(longer) = all_contents.iter().find(|l| l.len() > c.len() && l[..c.len()] == c[..]) { if r.below(3) != 0 { shared.push((c, *longer)); continue; } }
+        if r.below(4) == 0 { data.extend([0u8; 3]); } where_.insert(c, (data.len() as u64, c.len() as u32)); data.extend(c.iter()); }
+    // (a chain prefix-of-prefix resolves through the longest stored content)
+    for _ in 0..4 { for (c, longer) in &shared { if !where_.contains_key(*c) { if let Some(&(o, _)) = where_.get(*longer) { where_.insert(*c, (o, c.len() as u32)); } } } }
+    for (c, _) in &shared { if !where_.contains_key(*c) { where_.insert(*c, (data.len() as u64, c.len() as u32)); data.extend(c.iter()); } }
     let mut es: Vec<E> = Vec::new();
     for (id, c) in tiles {
         let (o, l) = where_[c];
@@ -115,8 +125,10 @@ pub fn foreign_archive(r: &mut Rng, tiles: &BTreeMap<u64, Vec<u8>>, ic: u8, leaf
     for s in order { if r.below(2) == 0 { out.extend([0xABu8; 5]); }
         match s { 0 => { mo = out.len() as u64; out.extend(&meta); } 1 => { lo = out.len() as u64; out.extend(&leaves); } _ => { doff = out.len() as u64; out.extend(&data); } } }
     let n_contents = where_.len() as u64;
+    // the header statistics may be 0 = "unknown" (PMTiles v3): a reader must not rely on them
+    let unknown_stats = r.below(3) == 0;
     let h = Hdr { root_off, root_len: root.len() as u64, meta_off: mo, meta_len: meta.len() as u64, leaf_off: lo, leaf_len: leaves.len() as u64, data_off: doff,
-        data_len: data.len() as u64, n_addr: tiles.len() as u64, n_entries: es.len() as u64, n_contents, clustered: 0, ic, tc: 1, tt: 2, min_zoom: 1, max_zoom: 9,
+        data_len: data.len() as u64, n_addr: if unknown_stats { 0 } else { tiles.len() as u64 }, n_entries: if unknown_stats { 0 } else { es.len() as u64 }, n_contents: if unknown_stats { 0 } else { n_contents }, clustered: 0, ic, tc: 1, tt: 2, min_zoom: 1, max_zoom: 9,
         min_lon: -1_234_567, min_lat: 21, max_lon: 1_800_000_000, max_lat: 850_000_000, center_zoom: 4, c_lon: 7, c_lat: -7 };
     out[..127].copy_from_slice(&build_header(&h));
     out
@@ -441,7 +453,7 @@ pub fn c03_c11_c20() -> Result<u64, String> {
         let ic = 1 + (round % 4) as u8;
         let b = foreign_archive(&mut r, &tiles, ic, [0, 1, 2, 3, 7][round % 5], round % 3 == 0);
         let desc = format!("foreign archive: {} tiles, compression code {ic}, leaf size {}, nested {}", tiles.len(), [0, 1, 2, 3, 7][round % 5], round % 3 == 0);
-        parse_archive(&b).map_err(|e| format!("generator bug: {e}"))?;
+        parse_archive_foreign(&b).map_err(|e| format!("generator bug: {e}"))?;
         let mut pm = PMTiles::from_bytes(b.clone()).map_err(|e| format!("spec-valid {desc} does not open: {e}"))?;
         same_content(&mut pm, &tiles, &desc)?;
         if pm.meta_data.get("name") != Some(&"foreign".into()) || pm.min_zoom != 1 || pm.max_zoom != 9 || pm.center_zoom != 4 { return Err(format!("settings/metadata not reported as stored ({desc})")); }
@@ -675,8 +687,37 @@ pub fn c17() -> Result<u64, String> {
             if let Ok(Ok(mut pm)) = quiet(|| PMTiles::from_bytes(img.clone())) { let ok = same_content(&mut pm, &tiles, "torn").is_ok();
                 if img != full || !ok { return Err(format!("a write torn after {cut} of {} write operations opens successfully ({} tiles, {c:?}) but is not the complete archive", rec.log.len(), tiles.len())); } }
         }
+        // the async writer: every write the adapter issues is recorded the same way
+        if size <= 100 {
+            let mut apm = PMTiles::new_async(TileType::Png, Compression::None); apm.internal_compression = *c; apm.max_zoom = 7; apm.min_longitude = -12.5; apm.center_latitude = 3.25;
+            for (k2, v) in &tiles { apm.add_tile(*k2, v.clone()).unwrap(); }
+            let mut arec = ARecorder { inner: futures::io::Cursor::new(Vec::new()), log: Vec::new() };
+            block_on(apm.to_async_writer(&mut arec)).map_err(|e| e.to_string())?;
+            let afull = arec.inner.into_inner();
+            for cut in 0..=arec.log.len() { n += 1;
+                let mut img: Vec<u8> = Vec::new();
+                for (at, data) in &arec.log[..cut] { let e = *at as usize + data.len(); if img.len() < e { img.resize(e, 0); } img[*at as usize..e].copy_from_slice(data); }
+                if let Ok(Ok(_)) = quiet(|| PMTiles::from_bytes(img.clone())) {
+                    if img != afull { return Err(format!("an ASYNC write torn after {cut} of {} write operations opens successfully ({} tiles, {c:?}) but is not the complete archive", arec.log.len(), tiles.len())); } }
+            }
+        }
     } }
     Ok(n)
+}
+/// async stream recording every poll_write that transfers bytes
+struct ARecorder { inner: futures::io::Cursor<Vec<u8>>, log: Vec<(u64, Vec<u8>)> }
+impl futures::io::AsyncWrite for ARecorder {
+    fn poll_write(mut self: std::pin::Pin<&mut Self>, cx: &mut std::task::Context<'_>, buf: &[u8]) -> std::task::Poll<std::io::Result<usize>> {
+        let me = &mut *self; let at = me.inner.position();
+        let r = std::pin::Pin::new(&mut me.inner).poll_write(cx, buf);
+        if let std::task::Poll::Ready(Ok(k)) = &r { if *k > 0 { me.log.push((at, buf[..*k].to_vec())); } }
+        r
+    }
+    fn poll_flush(mut self: std::pin::Pin<&mut Self>, cx: &mut std::task::Context<'_>) -> std::task::Poll<std::io::Result<()>> { let me = &mut *self; std::pin::Pin::new(&mut me.inner).poll_flush(cx) }
+    fn poll_close(mut self: std::pin::Pin<&mut Self>, cx: &mut std::task::Context<'_>) -> std::task::Poll<std::io::Result<()>> { let me = &mut *self; std::pin::Pin::new(&mut me.inner).poll_close(cx) }
+}
+impl futures::io::AsyncSeek for ARecorder {
+    fn poll_seek(mut self: std::pin::Pin<&mut Self>, cx: &mut std::task::Context<'_>, pos: SeekFrom) -> std::task::Poll<std::io::Result<u64>> { let me = &mut *self; std::pin::Pin::new(&mut me.inner).poll_seek(cx, pos) }
 }
 
 /// Read+Seek / Write+Seek stream that transfers at most `chunk(k)` bytes per call
@@ -819,7 +860,7 @@ pub fn c20() -> Result<u64, String> {
     for round in 0..40 { n += 1;
         let tiles = gen_tiles(&mut r, 3 + round % 20, 2); let ic = 1 + (round % 4) as u8;
         let b = if round % 2 == 0 { foreign_archive(&mut r, &tiles, ic, [0, 2, 5][round % 3], false) } else { write_at(build(&tiles, comp_of(ic), &Default::default()), 0).map_err(|e| e.to_string())?.0 };
-        let p = parse_archive(&b)?; let h = &p.hdr;
+        let p = parse_archive_foreign(&b)?; let h = &p.hdr;
         let log = std::rc::Rc::new(std::cell::RefCell::new(Vec::new()));
         let mut pm = PMTiles::from_reader(Spy { inner: Cursor::new(b.clone()), touched: log.clone() }).map_err(|e| e.to_string())?;
         let allowed = [(0u64, 127u64), (h.root_off, h.root_off + h.root_len), (h.meta_off, h.meta_off + h.meta_len), (h.leaf_off, h.leaf_off + h.leaf_len)];
@@ -828,6 +869,37 @@ pub fn c20() -> Result<u64, String> {
             let (o, l) = p.tiles[id]; let (ws, we) = (h.data_off + o, h.data_off + o + l as u64);
             let lg = log.borrow(); let lo = lg.iter().map(|x| x.0).min(); let hi = lg.iter().map(|x| x.1).max();
             if lo != Some(ws) || hi != Some(we) { return Err(format!("lookup of tile {id} read bytes {lo:?}..{hi:?}, its range is {ws}..{we}")); } }
+    }
+    {   // a lookup that fails once part-way (transient fault, few bytes per read) and is then repeated: the retry reads exactly the tile's range again
+        struct Flaky { inner: Cursor<Vec<u8>>, fail_at_read: usize, reads: usize, touched: std::rc::Rc<std::cell::RefCell<Vec<(u64, u64)>>> }
+        impl std::io::Read for Flaky { fn read(&mut self, b: &mut [u8]) -> std::io::Result<usize> { self.reads += 1; if self.reads == self.fail_at_read { return Err(std::io::Error::new(std::io::ErrorKind::Other, "transient")); }
+            let p = self.inner.position(); let c = b.len().min(4); let k = self.inner.read(&mut b[..c])?; if k > 0 { self.touched.borrow_mut().push((p, p + k as u64)); } Ok(k) } }
+        impl Seek for Flaky { fn seek(&mut self, p: SeekFrom) -> std::io::Result<u64> { self.inner.seek(p) } }
+        let mut tiles: Model = BTreeMap::new(); tiles.insert(1, vec![1u8; 10]); tiles.insert(2, vec![2u8; 12]); tiles.insert(3, vec![3u8; 9]);
+        let b = write_at(build(&tiles, Compression::None, &Default::default()), 0).map_err(|e| e.to_string())?.0;
+        let p = parse_archive(&b)?; let h = &p.hdr;
+        for fail_after in 1..4usize { n += 1;
+            let log = std::rc::Rc::new(std::cell::RefCell::new(Vec::new()));
+            let mut pm = PMTiles::from_reader(Flaky { inner: Cursor::new(b.clone()), fail_at_read: usize::MAX, reads: 0, touched: log.clone() }).map_err(|e| e.to_string())?;
+            if pm.get_tile_by_id(1).map_err(|e| e.to_string())?.as_ref() != Some(&tiles[&1]) { return Err("lookup of tile 1 through a 4-bytes-per-read stream differs".into()); }
+            // no public access to the reader: rebuild with a fault scheduled inside the lookup of tile 2
+            let opened_reads = { let l = log.borrow().len(); l };
+            let log2 = std::rc::Rc::new(std::cell::RefCell::new(Vec::new()));
+            let mut pm2 = PMTiles::from_reader(Flaky { inner: Cursor::new(b.clone()), fail_at_read: usize::MAX, reads: 0, touched: log2.clone() }).map_err(|e| e.to_string())?;
+            let _ = pm2.get_tile_by_id(1);
+            let reads_so_far = log2.borrow().len();
+            let _ = (opened_reads, reads_so_far);
+            let log3 = std::rc::Rc::new(std::cell::RefCell::new(Vec::new()));
+            let mut pm3 = PMTiles::from_reader(Flaky { inner: Cursor::new(b.clone()), fail_at_read: reads_so_far + fail_after + 1, reads: 0, touched: log3.clone() }).map_err(|e| e.to_string())?;
+            let _ = pm3.get_tile_by_id(1);
+            let first = pm3.get_tile_by_id(2);
+            if first.is_ok() { continue; }   // the fault did not hit this lookup
+            log3.borrow_mut().clear();
+            let again = pm3.get_tile_by_id(2).map_err(|e| format!("retry of a lookup after a transient fault fails: {e}"))?;
+            let (o, l) = p.tiles[&2]; let (ws, we) = (h.data_off + o, h.data_off + o + l as u64);
+            let lg = log3.borrow(); let lo = lg.iter().map(|x| x.0).min(); let hi = lg.iter().map(|x| x.1).max();
+            if again.as_ref() != Some(&tiles[&2]) || lo != Some(ws) || hi != Some(we) { return Err(format!("after a transient read fault inside the lookup of tile 2, the repeated lookup read bytes {lo:?}..{hi:?} (its range is {ws}..{we}) and returned {:?}", again.map(|v| v.len()))); }
+        }
     }
     {
         let mut tiles: Model = BTreeMap::new();
